@@ -22,7 +22,7 @@ CHECKS = {
             'For every execution that yields a consensus the score feature is read before the lazy path runs (must be the -1 sentinel or already truthful) and kemeny_score must be a non-negative number within 1e-6 of the reference score of EVERY returned ranking; schemes include the positional base-64 scheme (scores ~1e13) and two schemes scaled by 2^-11; earlier results are re-read after later calls; the local-search bookkeeping is checked at its source from all start states.',
             'dyadic penalties; stand-ins as in C03'),
     'C05': ('3/C05, 8.2b', 'bounded-exhaustive enumeration of datasets x schemes x exact configurations x both flags x EVERY optimal vertex the solver may return, against a brute-force optimum over all rankings with ties; solver replaced by an exhaustive 0/1 enumerator (cplex stand-in, PuLP stand-in) and by real CBC',
-            'DS(3,2) x 19 schemes, DS(2,3), DS(4,2), the non-tieable cores of DS(3,3) under three schemes incl. p=0.375, the DS(3,3)+x sub-space, premutated inputs: result score == brute-force optimum; non-optimised CPLEX model with all rankings requested returns exactly the set of minimisers; feasible set of the unpruned ILP in bijection with WO(U) with objective == score at every point; the selector takes CPLEX when present and falls back to the free solver (real CBC) when absent. Thorough: DS(4,3), DS(5,2), structured families at n=6..8 against a subset-DP oracle.',
+            'DS(3,2) x 19 schemes, DS(2,3), DS(4,2), the non-tieable cores of DS(3,3) under three schemes incl. p=0.375, the DS(3,3)+x sub-space, premutated inputs: result score == brute-force optimum; non-optimised CPLEX model with all rankings requested returns exactly the set of minimisers; feasible set of the unpruned ILP in bijection with WO(U) with objective == score at every point; the selector takes CPLEX when present and falls back to the free solver (real CBC) when absent. Thorough: DS(4,2) and DS(3,3) under all schemes, DS(5,2) with the stand-in, structured families at n=6..8 (real CBC) against a subset-DP oracle.',
             'real CPLEX never run (stand-in returns exactly the optimal points); CBC trusted on <=30-variable models and cross-checked by the enumerator; schemes with unit penalties below 1e-3 are not fed to the CPLEX-model path (its pruning tolerance is absolute, DESIGN 8.6)'),
     'C06': ('3/C06, 8.2b', 'bounded-exhaustive enumeration of datasets x schemes x ParCons configurations (bounds 80/0/1/2/3, auxiliaries, all pivot schedules, three solver modes) against the set of ALL brute-force minimisers; structured sub-spaces for multi-component shapes',
             'parcons_partition is a partition and some minimiser respects it; the ParCons consensus respects it and reports it as weak partitioning; necessarily_optimal implies optimal for EVERY configuration; the ParCons flag equals "no component larger than the bound that cannot be all-tied at minimal cost". DS(3,2), DS(3,3), DS(4,2) (partition), DS(3,3)+x, a two-block family of 7 elements (delegated 4-cycle next to an exactly solved 3-cycle, DP optimum), premutated inputs.',
